@@ -7,9 +7,12 @@ F1  no function stores to, or calls a mutating method on, a module-level object;
 F2  a parameter with a mutable default is neither mutated, stored in a field, nor returned
 F4  attribute stores on values that may alias a module-level object (Token.Empty)
 F5  sources of nondeterminism: iteration over a set, hash(), id(), random/time/os/uuid, set.pop()
+F7  memoising decorators (lru_cache, cache, cached_property, ...): results shared between calls are state that
+    outlives one parse; a cached mutable result is aliased between trees
 """
 import ast
 import os
+import re
 
 MUTATORS = {'append', 'extend', 'insert', 'remove', 'pop', 'clear', 'reverse', 'sort', 'update', 'add', 'discard',
             'setdefault', 'popitem', '__setitem__', '__delitem__'}
@@ -104,6 +107,9 @@ def scan(repo):
             for a, d in zip(args[len(args) - len(fn.args.defaults):], fn.args.defaults):
                 if isinstance(d, (ast.List, ast.Dict, ast.Set)):
                     mutable_defaults.add(a.arg)
+            for d in fi.decorators:
+                if re.search(r'cache|memo', d, re.I):
+                    sites.append(Site('F7', m, fname, fn.lineno, 'memoising decorator @%s' % d))
             for n in own:
                 if isinstance(n, (ast.Global, ast.Nonlocal)):
                     sites.append(Site('F1', m, fname, n.lineno, 'global/nonlocal ' + ','.join(n.names)))
